@@ -357,7 +357,7 @@ var c03AttrName = map[string]map[string]string{
 }
 
 func c03Gen(r *Rng, tier string, emit func(string)) {
-	n := 300
+	n := 1000
 	if tier == "thorough" {
 		n = 6000
 	}
